@@ -512,6 +512,12 @@ void HistSim::finish() {
     return;
   for (auto& a : allocs_)
     a->faults.bernoulliDen = 0;  // "as soon as allocation succeeds again"
+  for (int d = 0; d < ndocs(); d++) {
+    // one last look at every value (linked buffers released after the last operation included)
+    WalkOpts wo;
+    wo.lookups = false;
+    extract(docs_[size_t(d)].doc->as<JsonVariantConst>(), wo);
+  }
   // 1. clear every document: everything returns to the allocator; overflowed resets
   for (int d = 0; d < ndocs(); d++) {
     auto& ds = docs_[size_t(d)];
@@ -710,6 +716,30 @@ struct Gen {
       sel = 905 + unsigned(r.below(95));  // threads mostly meet in serializers and deserializers
     Op op;
     auto via = [&](int n) { op.set("via", int64_t(r.below(uint64_t(n)))); };
+    if (r.chance(1, 25)) {
+      // the same characters again, from the other kind of source (linked <-> copied)
+      std::vector<std::pair<size_t, const Val*>> strs;
+      for (size_t i = 0; i < refs.size(); i++) {
+        const Val* n = sim.nodeOf(*refs[i]);
+        if (n->k == K::Obj)
+          for (auto& m : n->o)
+            if (m.second.k == K::Str && m.second.s.find('\0') == std::string::npos && refs[i]->view != 'c' && refs[i]->view != 'a')
+              strs.push_back({i, &m.second});
+      }
+      if (!strs.empty()) {
+        auto& pick = strs[r.below(strs.size())];
+        const Val* holder = sim.nodeOf(*refs[pick.first]);
+        std::string key;
+        for (auto& m : holder->o)
+          if (&m.second == pick.second)
+            key = m.first;
+        Val nv = Val::str(pick.second->s, !pick.second->linked);
+        op = mkop("sets");
+        op.setu("h", pick.first).set("s", Sel::k(key).text()).set("v", toText(nv));
+        via(3);
+        return op;
+      }
+    }
     if (sel < 150) {
       op = mkop("sets");
       size_t h = pickRef();
@@ -1042,19 +1072,33 @@ Outcome execute(const Plan& plan) {
   Outcome out;
   try {
     if (o.mode == "twin") {
-      // two replicas: same operations, strings offered linked (L) or through copied kinds (C)
-      std::vector<std::string> obs(2);
-      Transcript tl, tc;
-      Options ol = o, oc = o;
+      // three replicas, same operations: strings offered linked wherever possible (L), through copied
+      // kinds only (C), and mixed as the plan says (M). In M the buffer of a linked string is released
+      // as soon as no value refers to it any more.
+      Transcript tl, tc, tm;
+      Options ol = o, oc = o, om = o;
       ol.replica = 'L';
       oc.replica = 'C';
       oc.instBase = 1000;
+      om.replica = 'M';
+      om.instBase = 2000;
       g_ledger.reset();
-      HistSim L(ol, &tl, true), C(oc, &tc, true);
+      HistSim L(ol, &tl, true), C(oc, &tc, true), M(om, &tm, true);
       for (size_t i = 0; i < plan.ops.size(); i++) {
         L.step(plan.ops[i], i);
         C.step(plan.ops[i], i);
+        M.step(plan.ops[i], i);
         std::string a = L.observeAll(), b = C.observeAll();
+        std::string m = M.observeAll();
+        if (m != b) {
+          size_t p = 0;
+          while (p < m.size() && p < b.size() && m[p] == b[p])
+            p++;
+          size_t from = p > 60 ? p - 60 : 0;
+          violate("C14:replica-divergence", "after op #" + std::to_string(i) + " (" + plan.ops[i].text().substr(0, 100) +
+                                                ") mixed and copied replicas differ: M=…" + m.substr(from, 140) + " C=…" +
+                                                b.substr(from, 140));
+        }
         if (a != b) {
           size_t p = 0;
           while (p < a.size() && p < b.size() && a[p] == b[p])
@@ -1069,6 +1113,7 @@ Outcome execute(const Plan& plan) {
       }
       L.finish();
       C.finish();
+      M.finish();
       out.hash = tl.h;
       return out;
     }
